@@ -95,6 +95,16 @@ func checkC16(c *Checker) {
 					ok, detail = false, "no scalar result"
 					break
 				}
+				// val may only be compared with constants: any arithmetic on it (negation, abs, subtraction)
+				// can overflow for extreme values, which the mathematical reading of the path facts would hide
+				for _, fc := range nonAxiomFacts(o.St.facts) {
+					if fc.Orig == nil {
+						continue
+					}
+					if !comparisonOnly(fc.Orig, val) {
+						ok, detail = false, "val is used in arithmetic before the comparison (can overflow for extreme values): "+pretty(fc.Orig)
+					}
+				}
 				inLo, inHi := f.impliesGE0(pv.Sub(polyConst(mn))), f.impliesGE0(polyConst(mx).Sub(pv))
 				switch {
 				case ret.Key() == val.Key():
@@ -380,3 +390,22 @@ func sameMultiset(a, b []string) bool {
 }
 
 var _ = strings.Contains
+
+// comparisonOnly: the boolean term compares the bare atom with constants only (no arithmetic on the atom).
+func comparisonOnly(t *Term, atom *Term) bool {
+	switch t.Op {
+	case OpLNot:
+		return comparisonOnly(t.Args[0], atom)
+	case OpConst:
+		return true
+	case OpCmp:
+		for _, a := range t.Args {
+			bare := a.Op == OpAtom && a.Name == atom.Name
+			if !bare && a.contains(func(x *Term) bool { return x.Op == OpAtom && x.Name == atom.Name }) {
+				return false
+			}
+		}
+		return true
+	}
+	return !t.contains(func(x *Term) bool { return x.Op == OpAtom && x.Name == atom.Name })
+}
